@@ -405,6 +405,41 @@ func VNsTable(s *Store) map[string]string {
 	return out
 }
 
+// VSetPublicNamespaces changes the public namespaces of a dataset the documented way: its meta-entity is written into
+// core.Dataset with the new list.
+func (w *VWorld) VSetPublicNamespaces(dsName string, ns []string) error {
+	info, _ := w.Store.NamespaceManager.GetDatasetNamespaceInfo()
+	meta, err := w.Store.GetEntity(info.DatasetPrefix+":"+dsName, []string{datasetCore}, true)
+	if err != nil || meta == nil {
+		return fmt.Errorf("meta-entity of %s not found: %v", dsName, err)
+	}
+	meta.Properties[info.PublicNamespacesKey] = ns
+	return w.Dsm.GetDataset(datasetCore).StoreEntities([]*Entity{meta})
+}
+
+// VURIAliases: full URIs that are stored under more than one identifier string (CURIE) in the identifier table, i.e.
+// that have more than one internal id.
+func VURIAliases(s *Store) []string {
+	h := &VHist{W: &VWorld{Store: s}}
+	by := map[string][]string{}
+	for curie := range h.uriIDs() {
+		full, err := s.NamespaceManager.ExpandCurie(curie)
+		if err != nil || full == "" {
+			full = curie
+		}
+		by[full] = append(by[full], curie)
+	}
+	var out []string
+	for full, l := range by {
+		if len(l) > 1 {
+			sort.Strings(l)
+			out = append(out, fmt.Sprintf("%s is known as %v", full, l))
+		}
+	}
+	sort.Strings(out)
+	return out
+}
+
 // VBusState: what the event bus would deliver: the registered topics, and per subscriber the topics it receives
 // (read through the bus library's own accessors; nothing is emitted).
 func (w *VWorld) VBusState() (topics []string, subs map[string][]string) {
